@@ -141,6 +141,11 @@ def gen_doc(rng, kind):
             exp[go] = ZERO.get(syn, "[]")
         if rng.random() < 0.1:
             text += b"X-Extra-%d: anything goes\n" % len(text)
+    if rng.random() < 0.15:
+        # a field the typed struct does not know, named like a field of one of the nested custom types
+        k = rng.choice([b"Epoch", b"Revision", b"Native", b"Relations", b"ABI", b"OS", b"CPU"])
+        if k not in present and (k + b":") not in text:
+            text += k + b": " + rng.choice([b"3", b"x y", b"yes"]) + b"\n"
     return text, exp, {"files": files, "present": present}
 
 
@@ -248,14 +253,13 @@ def run(chk):
         for _ in range(chk.n(400, 8000)):
             t, _, _ = gen_doc(rng, kind)
             t = gen.mutate(rng, t, [b"\n", b" ", b":", b",", b"x", b"-", b"(", b")", b"[", b"1", b"\t"])
-            if any(k in t for k in (b"Epoch", b"Revision", b"Relations", b"ABI", b"OS:", b"CPU", b"Filename")):
-                continue
+            if b"Filename" in t:
+                continue          # DSC.Filename / Changes.Filename are set by the parser, not a field of the document
             icases.append(("tdoc", [kind.encode(), t])); mcases.append(("cunmarshal", [kind.encode(), t]))
     impl = chk.run_impl(icases); model = chk.run_model(mcases)
     chk.compare("mutated-documents", mcases, impl, model, spec=False)
     chk.extra["schema_regenerated_changed"] = chk.schema_changed
     chk.assumptions += ["struct tags are regenerated from the compiled types on every run (schemadump) and the schema lemmas re-checked",
-                        "field names that collide with the fields of nested struct types (Epoch, Revision, Relations, ABI, OS, CPU) are not generated: the decoder's nested-struct walk is not modelled",
                         "path.Join is computed by Python's posixpath for the AbsFiles accessor"]
 
 
